@@ -66,6 +66,33 @@ def offset_vector(s):
     return v.copy()
 
 
+def offset_form_in_domain(s):
+    """numpy / pandas containers of a narrow dtype (int8, int16, float16, float32, unsigned ...) are outside the quantifier:
+    the property speaks about the offset VALUE; float64, int64, int32 arrays and Python sequences are in."""
+    dt = getattr(s, "dtype", None)
+    if dt is None:
+        return True
+    try:
+        return bool((dt.kind == "f" and dt.itemsize == 8) or (dt.kind == "i" and dt.itemsize >= 4))
+    except Exception:
+        return False
+
+
+def table_form_in_domain(df):
+    """shift and angle columns must be float64, x,y,z float64 or integer-typed (other storage types are outside the quantifier)"""
+    try:
+        for c in ("shift_x", "shift_y", "shift_z", "phi", "theta", "psi"):
+            if not (df[c].dtype.kind == "f" and df[c].dtype.itemsize == 8):
+                return False
+        for c in ("x", "y", "z"):
+            k, sz = df[c].dtype.kind, df[c].dtype.itemsize
+            if not ((k == "f" and sz == 8) or (k == "i" and sz >= 4)):
+                return False
+    except Exception:
+        return False
+    return True
+
+
 def table_in_domain(df):
     try:
         if sorted(map(str, df.columns)) != sorted(ALL_COLS) or not 1 <= len(df) <= PARTICLES_MAX:
